@@ -288,6 +288,36 @@ def _pure_case(case):
     kind = case["kind"]
     if kind == "funcseq":
         return _funcseq_case(case)
+    if kind == "returned-settings":
+        return _returned_settings_case(case)
+    if kind == "method-kws":
+        # dictionaries of minimiser keywords (incl. keywords lmfit knows
+        # under an older name) are not modified
+        import copy as _copy
+        from nanite.fit import IndentationFitter
+        out = []
+        tr = synth.truth_params("hertz_para", E=3000.0, contact_point=0.0,
+                                baseline=1e-10)
+        idnt = synth.make_curve("hertz_para", tr, n_app=150, n_ret=100,
+                                noise=2e-11, seed=1)
+        d = _copy.deepcopy(case["kws"])
+        d0 = _copy.deepcopy(d)
+        try:
+            if case["entry"] == "fit_model":
+                idnt.fit_model(model_key="hertz_para", method=case["method"],
+                               method_kws=d)
+            else:
+                IndentationFitter(idnt, model_key="hertz_para",
+                                  method=case["method"], method_kws=d)
+        except BaseException as e:
+            if isinstance(e, (KeyboardInterrupt, SystemExit, MemoryError)):
+                raise
+        if d != d0 or list(d) != list(d0):
+            out.append(V(PROP, "argument-mutated", site=case["entry"],
+                         witness="method_kws:" + ",".join(sorted(d0)),
+                         detail=f"the caller's method_kws {d0} became {d}",
+                         case=case, kind="pure"))
+        return out
     out = []
 
     def viol(what, detail):
@@ -398,6 +428,71 @@ def _pure_case(case):
             viol("names", "names list modified by compute_features")
         if cn.indent_canon(idnt) != c0:
             viol("curve", "curve modified by compute_features")
+    return out
+
+
+def _returned_settings_case(case):
+    """objects handed out by one curve (values of its fit_properties, its
+    initial parameters) are edited in place by the caller; another curve
+    with the same data, fitted afterwards with the same call, gives what a
+    curve fitted before the edit gave"""
+    from .. import state
+    out = []
+    state.restore()
+    mk = case["model"]
+
+    def curve():
+        tr = synth.truth_params("hertz_para", E=3000.0, contact_point=0.0,
+                                baseline=1e-10)
+        return synth.make_curve("hertz_para", tr, n_app=150, n_ret=100,
+                                noise=2e-11, seed=1)
+    ref = curve()
+    ref.fit_model(model_key=mk)
+    a = curve()
+    a.fit_model(model_key=mk)
+    fp = a.fit_properties
+    what = case["edit"]
+    try:
+        if what == "range_x":
+            fp["range_x"][0], fp["range_x"][1] = -3e-7, 2e-7
+        elif what == "method_kws":
+            fp["method_kws"]["max_nfev"] = 2
+        elif what == "preprocessing_options":
+            fp.setdefault("preprocessing_options", {})
+            if isinstance(fp.get("preprocessing_options"), dict):
+                fp["preprocessing_options"]["correct_tip_offset"] = {
+                    "method": "fit_constant_line"}
+        elif what == "initial-params":
+            P = a.get_initial_fit_parameters()
+            P["E"].set(value=77.0, vary=False)
+            P["contact_point"].set(min=-1e-9, max=1e-9)
+        elif what == "model-defaults":
+            from nanite import model as nmodel
+            P = nmodel.get_init_parms(mk)
+            P["E"].set(value=77.0, vary=False)
+    except BaseException as e:
+        if isinstance(e, (KeyboardInterrupt, SystemExit, MemoryError)):
+            raise
+    b = curve()
+    try:
+        b.fit_model(model_key=mk)
+        same = cn.indent_fields(b) == cn.indent_fields(ref)
+        detail = ""
+        if not same:
+            fb, fr = cn.indent_fields(b), cn.indent_fields(ref)
+            detail = str(sorted(k for k in set(fb) | set(fr)
+                                if fb.get(k) != fr.get(k))[:6])
+    except BaseException as e:
+        if isinstance(e, (KeyboardInterrupt, SystemExit, MemoryError)):
+            raise
+        same, detail = False, repr(e)
+    if not same:
+        out.append(V(PROP, "alias-differs-from-twin", site="returned-objects",
+                     witness=f"{what}:{mk}", detail="after a caller edited "
+                     f"in place the object a fitted curve handed out "
+                     f"({what}), a fresh curve with the same data gives "
+                     f"another result for the same call: {detail}",
+                     case=case, kind="pure"))
     return out
 
 
@@ -527,6 +622,20 @@ def pure_cases():
                     cases.append({"kind": "residual", "model": mk,
                                   "ascending": asc, "cp": cp,
                                   "weight_cp": w})
+    for mk in ("hertz_para", "hertz_cone", "hertz_pyr3s",
+               "sneddon_spher_approx"):
+        for edit in ("range_x", "method_kws", "preprocessing_options",
+                     "initial-params", "model-defaults"):
+            cases.append({"kind": "returned-settings", "model": mk,
+                          "edit": edit})
+    for entry in ("fit_model", "IndentationFitter"):
+        for meth, kws in (("leastsq", {"maxfev": 4000}),
+                          ("leastsq", {"max_nfev": 4000, "ftol": 1e-9}),
+                          ("nelder", {"maxiter": 300}),
+                          ("nelder", {"max_nfev": 300, "tol": 1e-9}),
+                          ("leastsq", {})):
+            cases.append({"kind": "method-kws", "entry": entry,
+                          "method": meth, "kws": kws})
     for reg in ("Decision Tree", "Extra Trees", "SVR (linear kernel)"):
         for lda in (None, True, False):
             cases.append({"kind": "rater", "regressor": reg, "lda": lda})
